@@ -1,4 +1,4 @@
-PROPS = ["CTV.Props.C18"]
+PROPS = ["CTV.Props.C18", "CTV.Model.TemporalSpec"]
 HARNESS = [dict(pkg="./client/", test="TestVerifC18")]
 RULE = ("(window, instant) cases through ctfe.ValidateChain (real certificates from crypto/x509.CreateCertificate), "
         "client.NewTemporalLogClient/IndexByDate and loglist3.LogList.TemporallyCompatible; bounds at instant ±{0,1ns,1s,1s-1ns,0.5s,1h,24h}, absent bounds; "
